@@ -17,6 +17,8 @@ func impl() {
 				res = implGT(p)
 			case "h":
 				res = implHist(p)
+			case "cc":
+				res = implCC(p)
 			default:
 				res = "badline"
 			}
